@@ -82,6 +82,7 @@ class C13(Prop):
                     if fcont == "list_npint_first" and isinstance(vals[0], float) and math.isfinite(vals[0]):
                         vals = [float(round(vals[0]))] + list(vals[1:])
                 yield {"stream": "numeric", "kind": kind, "n_bins": nb, "method": rng.choice(tc.ALL_METHODS[:2] * 3 + tc.NUMPY_METHODS), "fcontainer": fcont,
+                       "fname": rng.choice(["bin", "bin_edges"]) if fcont == "polars" and rng.random() < 0.15 else None,
                        "feature": [None if v is None else (v if isinstance(v, int) else ("nan" if math.isnan(v) else ("inf" if v == math.inf else ("-inf" if v == -math.inf else v)))) for v in vals]}
             else:
                 dtype, vals, enum = tc.gen_string_feature(rng, n)
@@ -99,6 +100,30 @@ class C13(Prop):
             for kind, vals in (("int", list(range(0, 101))), ("float", [float(v) for v in range(0, 101)]),
                                ("float", [k / 10 for k in range(0, 31)]), ("float", [k / 100 for k in range(0, 101)])):
                 yield {"stream": "numeric", "kind": kind, "n_bins": nb, "method": "uniform", "fcontainer": "polars", "feature": vals}
+        for k in range(60 if tier == "quick" else 1500):
+            # a count tie exactly at the keep / pool cut, with the tied categories first appearing in NON-alphabetical order
+            # (ties are resolved in natural order - not by first occurrence, not by an internal code)
+            nb = rng.randint(2, 5)
+            ncat = nb + rng.randint(1, 3)
+            cats = rng.sample(["a", "b", "c", "d", "e", "k", "m", "other 2", "z", "B", "_x"], ncat)
+            keep = nb - 1
+            counts = sorted([rng.randint(1, 4) for _ in range(ncat)], reverse=True)
+            counts[keep] = counts[keep - 1] if keep >= 1 else counts[keep]  # tie across the cut
+            by_count = sorted(cats, reverse=True)  # reverse alphabetical: first appearance against the natural order
+            vals = []
+            for cat, cnt in zip(by_count, counts):
+                vals += [cat] * cnt
+            first = list(by_count)
+            rest = vals[:]
+            for cat in first:
+                rest.remove(cat)
+            rng.shuffle(rest)
+            vals = first + rest
+            if rng.random() < 0.3:
+                vals.insert(rng.randrange(len(vals)), None)
+            kind = rng.choice(["str", "cat", "cat", "enum"])
+            yield {"stream": "string", "kind": kind, "n_bins": nb, "method": "quantile", "feature": vals,
+                   "enum": sorted(set(cats), reverse=rng.random() < 0.5) if kind == "enum" else None, "fcontainer": "polars"}
         for pooled in ([10, 20, 30, 100, 110, 1000, 1230] if tier == "quick" else [10, 20, 30, 40, 100, 110, 200, 1000, 1010, 1230, 2500, 12345]):
             # 'other k' with k a multiple of ten (trailing zeros of the formatted count), k = pooled
             nb = rng.choice([2, 3])
@@ -118,7 +143,9 @@ class C13(Prop):
     def series(self, case):
         if case["stream"] == "numeric":
             vals = self.values(case)
-            return tc.numeric_series(case["kind"], [None if v is None else (int(v) if case["kind"].startswith(("int", "uint")) else v) for v in vals])
+            s_ = tc.numeric_series(case["kind"], [None if v is None else (int(v) if case["kind"].startswith(("int", "uint")) else v) for v in vals])
+            # a feature may be called like the columns bin_feature itself returns
+            return s_.alias(case["fname"]) if case.get("fname") else s_
         return tc.string_series(case["kind"], case["feature"], case.get("enum"))
 
     def impl(self, case):
